@@ -15,7 +15,19 @@ RULE = ("case = shape x byte string: valid encodings of random values; truncatio
         "field with values {0,1,field+-1,255,2^16-1,2^31,2^32-1,2^63+1,2^64-1 (as width allows)}; pairs (an offset entry pushed beyond the data + a length/size field enlarged; element count and its trailing copy changed consistently); whole offset tables displaced; UnsizedString payloads overwritten with eight kinds of malformed UTF-8; keyed containers (Map<u8,bool>, Set<bool>) of 1-5 items with one forbidden bit pattern at a time; random bytes. The input "
         "ends exactly at a PROT_NONE page and each case runs in a forked child (SIGSEGV = observation). Observed: outcome "
         "and value of the owned conversion, then the shared view's extent and every element each shared accessor / iterator "
-        "yields with an inside-the-input flag. non-trivial = input that is neither a valid encoding nor rejected at the first "
+        "yields with an inside-the-input flag, then an EXCLUSIVE view (ExclusiveWrapper::new over a copy of the input placed "
+        "the same way, canaries in front, realloc refused) whose every mutable accessor is walked, each under catch_unwind on "
+        "its own, first below the top pointer, then through the child wrappers: List iter_mut / `for x in &mut list` / "
+        "get_mut(i) / IndexMut<usize> / as_checked_mut_slice / IndexMut over all six kinds of range; Map iter_mut / "
+        "`for kv in &mut map` / values_mut / get_by_index_mut / get_mut(key); Set iter / get_by_index / contains through the "
+        "exclusive view (it has no mutable accessor); UnsizedList get_mut / index_mut / first_mut / last_mut and "
+        "get_exclusive / index_exclusive / first_exclusive / last_exclusive; UnsizedMap get_by_index_mut / get_mut(key) / "
+        "get_exclusive(key); UnsizedString as_mut_str; RemainingBytes DerefMut; generated structs: every sized field through "
+        "DerefMut, every unsized field's pointer and generated child wrapper; generated enums: the live variant's payload "
+        "through `data` and through the generated get() - recursing into every element / field / payload. Every fixed-size "
+        "value reached must have a valid bit pattern and lie inside the input, every element pointer's extent must lie inside "
+        "the input, the canaries must be intact; a controlled panic, an error, or a panicking drop-time pointer check are "
+        "accepted outcomes. non-trivial = input that is neither a valid encoding nor rejected at the first "
         "field; distinct = distinct byte strings per shape")
 TRUSTED = [
     "Coq 8.16.1 kernel", "extraction (ExtrOcamlBasic only) + runner/driver.ml",
@@ -26,6 +38,11 @@ ASSUMPTIONS = [
     "overflow checks compiled in (debug build of the harness; the model's ovf flag covers both settings in the theorems)",
     "the shared accessors' element extents are judged directly on the implementation (inside-the-input flags); the model "
     "covers the owned conversion and the offset iterator",
+    "the exclusive view's mutable accessors are judged directly on the implementation as well (bit patterns re-checked with "
+    "bytemuck's CheckedBitPattern of the item type, addresses compared with the input's); the walk only reads through the "
+    "`&mut` it is handed (writes and resizes through an exclusive view belong to C01-C03); keyed / indexed accessors are "
+    "exercised for the first 64 elements of a container; `List::as_mut_slice` / DerefMut (Pod items only: no invalid bit "
+    "pattern exists) are not called",
 ]
 
 VALS = [0, 1, 255, 65535, 2 ** 31, 2 ** 32 - 1, 2 ** 63 + 1, 2 ** 64 - 1]
@@ -323,11 +340,33 @@ def predicate(c, obs):
         ext = scan[1]
         if ext > len(bs):
             return "the shared view reports an extent of %d bytes, the input has %d" % (ext, len(bs))
+    # exclusive view: the fixed trailer (see `parse` in vh_unsized.rs)
+    x = _trailer(obs)
+    if x is None:
+        return "the observation lacks the exclusive view's trailer (harness out of sync)"
+    if x["status"] == 0 and x["info"] > len(bs):
+        return "the exclusive view reports an extent of %d bytes, the input has %d" % (x["info"], len(bs))
+    if not x["canaries"]:
+        return "walking the exclusive view's accessors wrote in front of the given bytes (canaries overwritten)"
+    if x["out_shared"] != 0:
+        return "%d element(s) produced by a shared accessor / iterator lie outside the input" % x["out_shared"]
+    if x["inv_shared"] != 0:
+        return "%d fixed-size value(s) handed out by a shared accessor have an invalid bit pattern" % x["inv_shared"]
     if obs[-2] != 0:
-        return "%d element(s) produced by a shared accessor / iterator lie outside the input" % obs[-2]
+        return ("%d element(s) / value(s) handed out by a mutable accessor of the exclusive view lie outside the input"
+                % (obs[-2] - x["out_shared"]))
     if obs[-1] != 0:
-        return "%d fixed-size value(s) handed out by a shared accessor have an invalid bit pattern" % obs[-1]
+        return ("%d fixed-size value(s) handed out by a mutable accessor of the exclusive view (iter_mut, get_mut, "
+                "IndexMut, mutable slices, values_mut ...) have an invalid bit pattern" % (obs[-1] - x["inv_shared"]))
     return None
+
+
+def _trailer(obs):
+    """-774 status info drop unchanged canaries OUTSIDE_shared INVALID_shared OUTSIDE INVALID"""
+    if len(obs) < 10 or obs[-10] != -774:
+        return None
+    return {"status": obs[-9], "info": obs[-8], "drop": obs[-7], "unchanged": obs[-6], "canaries": obs[-5],
+            "out_shared": obs[-4], "inv_shared": obs[-3]}
 
 
 def nontrivial(c, obs):
@@ -347,6 +386,15 @@ def distribution(cases, impl):
         own, scan = _split(o)
         outs["owned:" + ("ok" if own[:1] == [0] else "err%s" % own[1] if own[:1] == [1] else "panic" if own[:1] == [2] else "sig" if own[:1] == [-11] else "?")] += 1
         outs["view:" + ("ok" if scan[:1] == [0] else "err" if scan[:1] == [1] else "panic" if scan[:1] == [2] else "-")] += 1
+        x = _trailer(o)
+        if x is not None:
+            outs["excl:" + {0: "ok", 1: "err", 2: "panic"}.get(x["status"], "?")] += 1
+            if x["status"] == 0 and -2 in o[o.index(-773):-10]:
+                outs["excl:some accessor panicked"] += 1
+            if x["drop"] == 2:
+                outs["excl:drop check panicked"] += 1
+            if not x["unchanged"]:
+                outs["excl:bytes changed"] += 1
     return dict(outs)
 
 
